@@ -1,6 +1,7 @@
 package worlds
 
 import (
+	blst "github.com/supranational/blst/bindings/go"
 	"bytes"
 	"crypto/rand"
 	"fmt"
@@ -102,6 +103,40 @@ func runC01(r *simkit.Run) {
 		m := &c01Msg{sender: sender, ids: sub, valid: kind == "valid", kind: kind}
 		var shares []*p2pmsg.KeyShare
 		bad := c.Intn(len(sub), "bad-position")
+		// correlated errors (the kind that slips through a batched / aggregated check): small integer
+		// multiples of one offset point, so that some linear combination of the entries is error-free
+		var coef []int
+		var delta *shcrypto.EpochSecretKeyShare
+		if kind == "correlated-errors" {
+			delta = otherKeys.EpochSecretKeyShare(identitypreimage.IdentityPreimage([]byte("offset-point")), 0)
+			coef = make([]int, len(sub))
+			for i := range coef {
+				coef[i] = c.Intn(7, "error-coefficient") - 3
+			}
+			if len(sub) >= 2 && c.Bool("cancelling-coefficients") {
+				// errors that cancel under equal weights or under weights 1, 2, 3, ...
+				for i := range coef {
+					coef[i] = 0
+				}
+				if c.Bool("position-weighted") {
+					coef[0], coef[1] = 2, -1
+					if len(sub) >= 3 && c.Bool("three-entries") {
+						coef[0], coef[1], coef[2] = 1, 1, -1
+					}
+				} else {
+					coef[0], coef[1] = 1, -1
+				}
+			}
+			if coef[bad] == 0 {
+				nz := false
+				for _, x := range coef {
+					nz = nz || x != 0
+				}
+				if !nz {
+					coef[bad] = 1
+				}
+			}
+		}
 		for i, id := range sub {
 			var sh *shcrypto.EpochSecretKeyShare
 			switch {
@@ -109,6 +144,9 @@ func runC01(r *simkit.Run) {
 				sh = w.keys.EpochSecretKeyShare(identitypreimage.IdentityPreimage(append([]byte("x"), id...)), sender)
 			case kind == "other-eon" && i == bad:
 				sh = otherKeys.EpochSecretKeyShare(identitypreimage.IdentityPreimage(id), sender)
+			case kind == "correlated-errors" && coef[i] != 0:
+				// genuine share + coef*D: every entry is wrong by a multiple of one common offset
+				sh = perturbShare(w.keys.EpochSecretKeyShare(identitypreimage.IdentityPreimage(id), sender), delta, coef[i])
 			case kind == "other-keyper" && i == bad:
 				sh = w.keys.EpochSecretKeyShare(identitypreimage.IdentityPreimage(id), (sender+1)%n)
 			default:
@@ -158,7 +196,9 @@ func runC01(r *simkit.Run) {
 			sub = [][]byte{ids[c.Intn(len(ids), "one-id")]}
 		}
 		sender := c.Intn(n, "sender")
-		switch c.Weighted([]int{10, 2, 2, 1, 3, 2}, "alphabet") {
+		switch c.Weighted([]int{10, 2, 2, 1, 3, 2, 2}, "alphabet") {
+		case 6:
+			seq = append(seq, mkShares(sender, sub, "correlated-errors"))
 		case 0:
 			seq = append(seq, mkShares(sender, sub, "valid"))
 		case 1:
@@ -411,4 +451,19 @@ func c01Bare(r *simkit.Run, w *worldC, recv int, seq []*c01Msg) {
 			feed(sh.IdentityPreimage, m.sender, x, m.okAt[i], m.kind)
 		}
 	}
+}
+
+// perturbShare returns share + k*delta in G1.
+func perturbShare(share, delta *shcrypto.EpochSecretKeyShare, k int) *shcrypto.EpochSecretKeyShare {
+	acc := new(blst.P1)
+	acc.FromAffine((*blst.P1Affine)(share))
+	d := new(blst.P1)
+	d.FromAffine((*blst.P1Affine)(delta))
+	for i := 0; i < k; i++ {
+		acc.AddAssign(d)
+	}
+	for i := 0; i > k; i-- {
+		acc.SubAssign(d)
+	}
+	return (*shcrypto.EpochSecretKeyShare)(acc.ToAffine())
 }
